@@ -423,6 +423,9 @@ _ROUND7 = {
     "key_parity_of_distance": (["C19"], {}),
     "prov_valence_choice": (["C09"], {}),
     "key_edge_orientation": (["C07", "C08"], {}),
+    # what the writer produces has to be accepted by the reader: a rejection site of the reader that was not confirmed against the
+    # grammar is a question for the round-trip properties as well (undecided there, as for C04 / C20)
+    "exc_raise_inventory": (["C07", "C08"], {}),
     # the matching convention the user asked for has to arrive at the matcher through every constructor (C03: "both conventions")
     "sib_constructors": (["C03"], {}),
     "idx_branch_stop": (["C04"], {"IDX.branch-stop": 1}),
